@@ -288,8 +288,8 @@ Qed.
 Lemma fwd_filter_keep (q : cblock -> bool) node now ct bl :
   (forall x, q x = true -> is_prev x = false /\ is_age x = false) ->
   (forall x, q (bump_hop x) = q x) ->
-  (forall n d, q (new_block BLOCK_PREV_NODE n d) = false) ->
-  (forall n d, q (new_block BLOCK_AGE n d) = false) ->
+  q (prev_blk node bl) = false ->
+  q (age_blk node now ct bl) = false ->
   filter q (fwd_blocks node now ct bl) = map bump_hop (filter q bl).
 Proof.
   intros Hq Hb H6 H7.
@@ -297,10 +297,10 @@ Proof.
   { unfold mid_blocks, remove_all.
     rewrite filter_filter_sub by (intros x Hx; apply Hq in Hx as [_ Hx]; rewrite Hx; reflexivity).
     rewrite filter_map_comm by exact Hb. f_equal.
-    rewrite insert_bl_filter by apply H6.
+    rewrite insert_bl_filter by exact H6.
     apply filter_filter_sub. intros x Hx. apply Hq in Hx as [Hx _]. rewrite Hx. reflexivity. }
   rewrite fwd_blocks_eq. destruct (ct =? 0); [exact Hm|].
-  rewrite insert_bl_filter by apply H7. exact Hm.
+  rewrite insert_bl_filter by exact H7. exact Hm.
 Qed.
 
 Definition t6 (x : cblock) : bool := btype x =? 6.
@@ -437,3 +437,287 @@ Proof.
   rewrite Hm, insert_bl_snoc. exists (pre' ++ [age_blk node now ct (pre ++ [pl])]).
   rewrite <- app_assoc. reflexivity.
 Qed.
+
+
+(** * Typed block data on the wire *)
+
+Lemma decode_one_encode v : Cbor.wf v -> (depth v <= bundle_fuel)%nat -> decode_one (encode v) = Some v.
+Proof.
+  intros Hw Hd. unfold decode_one. rewrite <- (app_nil_r (encode v)).
+  rewrite decode_encode_depth by assumption. reflexivity.
+Qed.
+
+Lemma prev_node_roundtrip e : wf_eid e -> decode_prev_node (encode_prev_node e) = Some e.
+Proof.
+  intros H. unfold decode_prev_node, encode_prev_node.
+  rewrite decode_one_encode; [apply eid_roundtrip, H|apply cbor_of_eid_wf, H|].
+  pose proof (cbor_of_eid_depth e). unfold bundle_fuel. lia.
+Qed.
+
+Lemma bundle_age_roundtrip n : n < two64 -> decode_bundle_age (encode_bundle_age n) = Some n.
+Proof.
+  intros H. unfold decode_bundle_age, encode_bundle_age.
+  rewrite decode_one_encode; [reflexivity|exact H|cbn; unfold bundle_fuel; lia].
+Qed.
+
+Lemma hop_count_roundtrip l c : l < two64 -> c < two64 -> decode_hop_count (encode_hop_count (l, c)) = Some (l, c).
+Proof.
+  intros Hl Hc. unfold decode_hop_count, encode_hop_count. cbn [fst snd].
+  rewrite decode_one_encode; [reflexivity| |cbn; unfold bundle_fuel; lia].
+  cbn. repeat split; try assumption; lia.
+Qed.
+
+Lemma decode_hop_count_inv bs l c :
+  decode_hop_count bs = Some (l, c) -> decode bundle_fuel bs = Some (CArr [CUint l; CUint c], []).
+Proof.
+  unfold decode_hop_count, decode_one.
+  destruct (decode bundle_fuel bs) as [[v rest]|]; [|discriminate].
+  destruct rest; [|discriminate].
+  repeat (match goal with |- (match ?x with _ => _ end = _) -> _ => destruct x end; try discriminate).
+  intros H. injection H as -> ->. reflexivity.
+Qed.
+
+Lemma hop_view_bounds x l c : wf_cblock x -> hop_view x = Some (l, c) -> l < two64 /\ c < two64.
+Proof.
+  intros (_ & _ & _ & _ & Hlen & Hwf & _). unfold hop_view.
+  destruct (btype x =? BLOCK_HOP_COUNT); [|discriminate]. intros H.
+  apply decode_hop_count_inv in H. apply decode_wf in H as [H _]; [|exact Hwf|exact Hlen].
+  cbn in H. tauto.
+Qed.
+
+Lemma encode_hop_count_length l c : (length (encode_hop_count (l, c)) <= 19)%nat.
+Proof.
+  unfold encode_hop_count. cbn [fst snd]. rewrite encode_arr_length.
+  rewrite !encode_seq_length_cons. cbn [encode_seq map concat length].
+  rewrite !encode_uint_length. cbn [length].
+  pose proof (head_len_bounds l). pose proof (head_len_bounds c).
+  change (head_len (N.of_nat 2)) with 1%nat. lia.
+Qed.
+
+(** * Well-formedness of what is encoded *)
+
+Lemma crc_field_wf ct bs :
+  ct < 3 ->
+  match crc_field ct bs with
+  | Some v => ct <> 0 /\ N.of_nat (length v) < two64 /\ wf_bytes v
+  | None => ct = 0
+  end.
+Proof.
+  intros H. unfold crc_field. destruct (N.eqb_spec ct 1) as [E1|E1].
+  - cbv beta iota. unfold crc16_x25_field. rewrite be_length. split; [lia|]. split; [cbn; lia|apply be_wf].
+  - destruct (N.eqb_spec ct 2) as [E2|E2]; [|lia].
+    cbv beta iota. unfold crc32c_field. rewrite be_length. split; [lia|]. split; [cbn; lia|apply be_wf].
+Qed.
+
+Lemma with_crc_block_wf x : wf_cblock x -> wf_cblock (with_crc_block x).
+Proof.
+  intros (H1 & H2 & H3 & H4 & H5 & H6 & _). unfold with_crc_block, set_bcrc, wf_cblock.
+  cbn [btype bnum bflags bcrc_type btsd bcrc]. repeat (split; [assumption|]).
+  apply crc_field_wf, H4.
+Qed.
+
+Lemma with_crc_primary_wf p : wf_primary p -> wf_primary (with_crc_primary p).
+Proof.
+  intros (H1 & H2 & H3 & H4 & H5 & H6 & H7 & H8 & H9 & H10 & _).
+  unfold with_crc_primary, set_crc, wf_primary, is_fragment.
+  cbn [version flags crc_type dest src report_to create_time create_seq lifetime frag crc].
+  repeat (split; [assumption|]). apply crc_field_wf, H3.
+Qed.
+
+Lemma apply_primary_wf now p : now < two64 -> wf_primary p -> wf_primary (apply_primary now p).
+Proof.
+  intros Hn (H1 & H2 & H3 & H4 & H5 & H6 & H7 & H8 & H9 & H10 & H11).
+  unfold apply_primary, wf_primary, is_fragment, DEFAULT_LIFETIME.
+  cbn [version flags crc_type dest src report_to create_time create_seq lifetime frag crc].
+  repeat (split; [assumption|]).
+  split; [destruct (create_time p =? 0); assumption|].
+  split; [destruct (create_time p =? 0); [lia|assumption]|].
+  split; [destruct (lifetime p =? 0); [lia|assumption]|].
+  split; assumption.
+Qed.
+
+Lemma apply_norm_comm now p : impl_norm_primary (apply_primary now p) = apply_primary now (impl_norm_primary p).
+Proof. reflexivity. Qed.
+
+Lemma bump_hop_wf x : wf_cblock x -> hop_okb x = true -> wf_cblock (bump_hop x).
+Proof.
+  intros Hw Hok. unfold bump_hop. unfold hop_okb in Hok.
+  destruct (hop_view x) as [[l c]|] eqn:E; [|exact Hw].
+  destruct (hop_view_bounds x l c Hw E) as [Hl Hc].
+  destruct Hw as (H1 & H2 & H3 & H4 & H5 & H6 & H7).
+  unfold lt64 in Hok. apply N.ltb_lt in Hok.
+  unfold set_btsd, wf_cblock. cbn [btype bnum bflags bcrc_type btsd bcrc].
+  repeat (split; [assumption|]).
+  split; [pose proof (encode_hop_count_length l (c + 1)); lia|].
+  split; [|exact H7].
+  unfold encode_hop_count. apply encode_wf. cbn. repeat split; try assumption; lia.
+Qed.
+
+Lemma new_block_wf t n d :
+  t < two64 -> n < two64 -> N.of_nat (length d) < two64 -> wf_bytes d -> wf_cblock (new_block t n d).
+Proof.
+  intros. unfold new_block, wf_cblock. cbn [btype bnum bflags bcrc_type btsd bcrc].
+  repeat split; try assumption; lia.
+Qed.
+
+Lemma age_item_wf now ct : now < two64 -> ct < two64 -> Cbor.wf (age_item now ct).
+Proof. intros. unfold age_item. destruct (ct <=? now) eqn:E; cbn; lia. Qed.
+
+Lemma encode_int_length v : (exists n, v = CUint n \/ v = CNint n) -> (length (encode v) <= 9)%nat.
+Proof.
+  intros (n & [-> | ->]); [rewrite encode_uint_length|rewrite encode_nint_length];
+    pose proof (head_len_bounds n); lia.
+Qed.
+
+
+(** * The common hypothesis as propositions *)
+
+Record fwd_in (node : eid) (now : N) (b : bundle) : Prop := mkFwdIn {
+  in_wfp : wf_primary (impl_norm_primary (prim b));
+  in_wfn : Forall wf_cblock (map (impl_norm_cblock (is_admin (prim b))) (blocks b));
+  in_wfb : Forall wf_cblock (blocks b);
+  in_adm : impl_admin_ok (impl_norm_bundle b) = true;
+  in_nod : NoDup (used_nums (blocks b));
+  in_len : N.of_nat (length (blocks b)) < 4294967296;
+  in_hop : Forall (fun x => hop_okb x = true) (blocks b);
+  in_raise : forall x, In x (blocks b) -> hop_raises x = false;
+  in_now : now < two64;
+  in_node_wf : wf_eid node;
+  in_node_stable : impl_norm_eid node = node;
+  in_node_len : N.of_nat (length (encode_prev_node node)) < two64
+}.
+
+Lemma existsb_false {A} (f : A -> bool) l : existsb f l = false <-> forall x, In x l -> f x = false.
+Proof.
+  induction l as [|y l IH]; cbn [existsb In]; [intuition|].
+  rewrite orb_false_iff, IH. split.
+  - intros [H1 H2] x [<-|Hx]; [exact H1|apply H2, Hx].
+  - intros H. split; [apply H; left; reflexivity|intros x Hx; apply H; right; exact Hx].
+Qed.
+
+Lemma forallb_Forall {A} (f : A -> bool) l : forallb f l = true <-> Forall (fun x => f x = true) l.
+Proof. rewrite forallb_forall, Forall_forall. reflexivity. Qed.
+
+Lemma forallb_wf_cblock l : forallb wf_cblockb l = true <-> Forall wf_cblock l.
+Proof.
+  rewrite forallb_forall, Forall_forall. split; intros H x Hx; apply wf_cblockb_spec, H, Hx.
+Qed.
+
+Lemma fwd_inb_spec node now b : fwd_inb node now b = true -> fwd_in node now b.
+Proof.
+  unfold fwd_inb, node_okb, lt64. rewrite !andb_true_iff.
+  intros [[[[[[[[[H1 H2] H3] H4] H5] H6] H7] H8] H9] [[H10 H11] H12]].
+  constructor.
+  - apply wf_primaryb_spec. exact H1.
+  - apply forallb_wf_cblock. exact H2.
+  - apply forallb_wf_cblock. exact H3.
+  - exact H4.
+  - apply nodupb_spec. exact H5.
+  - apply N.ltb_lt. exact H6.
+  - apply forallb_Forall. exact H7.
+  - apply existsb_false. apply negb_true_iff. exact H8.
+  - apply N.ltb_lt. exact H9.
+  - apply wf_eidb_spec. exact H10.
+  - apply eid_eqb_eq. exact H11.
+  - apply N.ltb_lt. exact H12.
+Qed.
+
+(** * The forwarded bundle, field by field *)
+
+Lemma do_fwd_prim node now b :
+  prim (do_fwd node now b) = with_crc_primary (apply_primary now (impl_norm_primary (prim b))).
+Proof. reflexivity. Qed.
+
+Lemma do_fwd_blocks node now b :
+  blocks (do_fwd node now b) =
+  map (fin (is_admin (prim b))) (fwd_blocks node now (create_time (prim b)) (blocks b)).
+Proof. unfold do_fwd, finish, with_crc_bundle, impl_norm_bundle. cbn [prim blocks]. rewrite map_map. reflexivity. Qed.
+
+Section WithHyp.
+  Variables (node : eid) (now : N) (b : bundle).
+  Hypothesis Hin : fwd_in node now b.
+
+  Let a := is_admin (prim b).
+  Let ct := create_time (prim b).
+  Let bl' := fwd_blocks node now ct (blocks b).
+
+  Lemma in_ct : ct < two64.
+  Proof. destruct (in_wfp _ _ _ Hin) as (_ & _ & _ & _ & _ & _ & H & _). exact H. Qed.
+
+  Lemma prev_blk_wf : wf_cblock (prev_blk node (blocks b)).
+  Proof.
+    unfold prev_blk. rewrite (in_node_stable _ _ _ Hin). apply new_block_wf.
+    - cbv. reflexivity.
+    - pose proof (prev_num_bound (blocks b)). pose proof (in_len _ _ _ Hin). lia.
+    - apply (in_node_len _ _ _ Hin).
+    - apply encode_wf, cbor_of_eid_wf, (in_node_wf _ _ _ Hin).
+  Qed.
+
+  Lemma age_blk_wf : wf_cblock (age_blk node now ct (blocks b)).
+  Proof.
+    unfold age_blk. apply new_block_wf.
+    - cbv. reflexivity.
+    - pose proof (age_num_bound node (blocks b)). pose proof (in_len _ _ _ Hin). lia.
+    - assert (H : (length (encode (age_item now ct)) <= 9)%nat).
+      { apply encode_int_length. unfold age_item. destruct (ct <=? now); eexists; [left|right]; reflexivity. }
+      lia.
+    - apply encode_wf, age_item_wf; [apply (in_now _ _ _ Hin)|apply in_ct].
+  Qed.
+
+  Lemma fwd_block_wf x : In x bl' -> wf_cblock (fin a x).
+  Proof.
+    intros Hx. unfold fin. apply with_crc_block_wf.
+    apply fwd_blocks_In in Hx as [(y & Hy & ->)|[->|[_ ->]]].
+    - destruct (btype y =? 1) eqn:E1.
+      + rewrite bump_hop_other by (apply N.eqb_eq in E1; rewrite E1; reflexivity).
+        pose proof (in_wfn _ _ _ Hin) as H. rewrite Forall_forall in H. apply H.
+        apply in_map. exact Hy.
+      + rewrite norm_cblock_other by (rewrite bump_hop_btype; exact E1).
+        pose proof (in_wfb _ _ _ Hin) as H. rewrite Forall_forall in H.
+        pose proof (in_hop _ _ _ Hin) as H'. rewrite Forall_forall in H'.
+        apply bump_hop_wf; [apply H, Hy|apply H', Hy].
+    - rewrite norm_cblock_other by reflexivity. apply prev_blk_wf.
+    - rewrite norm_cblock_other by reflexivity. apply age_blk_wf.
+  Qed.
+
+  Lemma do_fwd_wf_blocks : Forall wf_cblock (blocks (do_fwd node now b)).
+  Proof.
+    rewrite do_fwd_blocks. apply Forall_forall. intros z Hz. apply in_map_iff in Hz as (x & <- & Hx).
+    apply fwd_block_wf. exact Hx.
+  Qed.
+
+  Lemma do_fwd_wf_prim : wf_primary (prim (do_fwd node now b)).
+  Proof.
+    rewrite do_fwd_prim. apply with_crc_primary_wf, apply_primary_wf; [apply (in_now _ _ _ Hin)|apply (in_wfp _ _ _ Hin)].
+  Qed.
+
+  Definition adm_blk (blk : cblock) : bool :=
+    if btype blk =? 1 then match decode_admin_record (btsd blk) with Some _ => true | None => false end else true.
+
+  Lemma do_fwd_admin_ok : impl_admin_ok (do_fwd node now b) = true.
+  Proof.
+    unfold impl_admin_ok. change (is_admin (prim (do_fwd node now b))) with a.
+    destruct a eqn:Ea; [|reflexivity].
+    pose proof (in_adm _ _ _ Hin) as Hadm. unfold impl_admin_ok in Hadm.
+    change (is_admin (prim (impl_norm_bundle b))) with a in Hadm. rewrite Ea in Hadm.
+    change (blocks (impl_norm_bundle b)) with (map (impl_norm_cblock a) (blocks b)) in Hadm.
+    rewrite Ea in Hadm.
+    fold adm_blk in Hadm |- *. rewrite forallb_forall in Hadm.
+    rewrite do_fwd_blocks. apply forallb_forall. intros z Hz. apply in_map_iff in Hz as (x & <- & Hx).
+    fold a. rewrite Ea. unfold adm_blk. rewrite fin_btype.
+    destruct (btype x =? 1) eqn:E1; [|reflexivity].
+    apply fwd_blocks_In in Hx as [(y & Hy & ->)|[->|[_ ->]]]; try discriminate.
+    rewrite bump_hop_btype in E1.
+    rewrite bump_hop_other by (apply N.eqb_eq in E1; rewrite E1; reflexivity).
+    specialize (Hadm (impl_norm_cblock true y) (in_map _ _ _ Hy)). unfold adm_blk in Hadm.
+    destruct (norm_cblock_fields true y) as (Ht & _). rewrite Ht, E1 in Hadm. exact Hadm.
+  Qed.
+
+  (** the octets handed to the CL decode to the forwarded bundle *)
+  Theorem fwd_wire : decode_bundle (encode_bundle (do_fwd node now b)) = Some (do_fwd node now b).
+  Proof.
+    unfold decode_bundle. rewrite decode_encode_bundle by (apply do_fwd_wf_prim || apply do_fwd_wf_blocks).
+    cbn [bundle_of_cbor]. rewrite bundle_tree_roundtrip by (apply do_fwd_wf_prim || apply do_fwd_wf_blocks).
+    rewrite do_fwd_admin_ok. reflexivity.
+  Qed.
+End WithHyp.
